@@ -158,7 +158,7 @@ CONDITIONS = [
               'mutation = any single-point mutation of the quick palettes at '
               'any other site'},
     {'fn': 'mutants', 'slices': pipeline.C04_SLICES,
-     'quick_slices': pipeline.C04_QUICK_SLICES, 'quick': 160,
+     'quick_slices': pipeline.C04_QUICK_SLICES, 'quick': 260,
      'thorough': 300, 'bound': pipeline.MUTANT_BOUND +
      '; models: trap_loose, trap_any, trap_dict, trap_typed, loose, top_any'},
     {'fn': 'mutants_reach',
